@@ -28,6 +28,7 @@ import (
 	"time"
 
 	"github.com/nspcc-dev/neo-go/pkg/config"
+	"github.com/nspcc-dev/neo-go/pkg/core/mpt"
 	"github.com/nspcc-dev/neo-go/pkg/core/storage"
 	"github.com/nspcc-dev/neo-go/pkg/core/transaction"
 	"github.com/nspcc-dev/neo-go/pkg/util"
@@ -165,7 +166,7 @@ type stats struct {
 	blocks, flushes, gcs, gcRemoved, restarts      int64
 	checks, nodesDecoded, nodesWalked, rootsWalked int64
 	activeChecked, inactiveChecked, shared         int64
-	gets, finds, oldOK, oldErr                     int64
+	gets, finds, oldOK, oldErr, seeks, proofs      int64
 	reactivated                                    int64
 	maxNodes                                       int64
 }
@@ -185,6 +186,8 @@ func (s *stats) merge(o *stats) {
 	s.shared += o.shared
 	s.gets += o.gets
 	s.finds += o.finds
+	s.seeks += o.seeks
+	s.proofs += o.proofs
 	s.oldOK += o.oldOK
 	s.oldErr += o.oldErr
 	s.reactivated += o.reactivated
@@ -432,6 +435,42 @@ func (r *run) check() (kind, detail string) {
 				}
 			} else if ret && len(want) > 0 {
 				return "find-fails-on-retained-root", fmt.Sprintf("FindStates(root of height %d, prefix %x): %v", x, p, err)
+			}
+		}
+		// SeekStates (no error result): nothing, or the whole correct answer.
+		if len(r.findP) > 0 {
+			p := r.findP[0]
+			st.seeks++
+			var res, want []storage.KeyValue
+			sm.SeekStates(root, p, func(k, v []byte) bool {
+				res = append(res, storage.KeyValue{Key: append(append([]byte{}, p...), k...), Value: bytes.Clone(v)})
+				return true
+			})
+			for _, k := range sortedKeys(r.ref.maps[x]) {
+				if strings.HasPrefix(k, string(p)) {
+					want = append(want, storage.KeyValue{Key: []byte(k), Value: r.ref.maps[x][k]})
+				}
+			}
+			if !sameKVs(res, want) && (ret || len(res) != 0) {
+				return "seek-returns-wrong-data-" + tag, fmt.Sprintf("SeekStates(root of height %d, prefix %x) = %s, that state had %s; latest %d, collected up to %d", x, p, kvString(res), kvString(want), h, r.gmax)
+			}
+		}
+		// proofs under the latest root, its predecessor, the oldest retained and the newest collected root
+		if x == h || x+1 == h || x == r.gmax || x+1 == r.gmax {
+			for _, k := range r.ref.probe {
+				st.proofs++
+				want, has := r.ref.maps[x][k]
+				proof, err := sm.GetStateProof(root, []byte(k))
+				if err != nil {
+					if ret && has {
+						return "proof-fails-on-retained-root", fmt.Sprintf("GetStateProof(root of height %d, key %x): %v; latest %d, collected up to %d", x, k, err, h, r.gmax)
+					}
+					continue
+				}
+				v, ok := mpt.VerifyProof(root, []byte(k), proof)
+				if !ok || !has || !bytes.Equal(v, want) {
+					return "proof-returns-wrong-data-" + tag, fmt.Sprintf("GetStateProof(root of height %d, key %x): %d nodes, verifies=%v value %x, that state had %x (present=%v)", x, k, len(proof), ok, v, want, has)
+				}
 			}
 		}
 	}
@@ -801,6 +840,8 @@ func TestCheck(t *testing.T) {
 		"shared_node_sightings":          int(total.shared),
 		"nodes_recreated_while_inactive": int(total.reactivated),
 		"get_calls":                      int(total.gets),
+		"seek_calls":                     int(total.seeks),
+		"proof_calls":                    int(total.proofs),
 		"find_calls":                     int(total.finds),
 		"old_root_get_correct":           int(total.oldOK),
 		"old_root_get_error":             int(total.oldErr),
